@@ -30,8 +30,15 @@ LIB_MARKERS = ["/myst_parser/", "/docutils/", "/sphinx/", "/markdown_it/", "/mdi
 def signature_of(exc: BaseException) -> tuple[str, list[str]]:
     """exception class + innermost frame inside myst_parser (file:function); when no myst_parser frame is on the
     stack, the innermost frame inside one of the libraries."""
-    tb = traceback.extract_tb(exc.__traceback__)
-    frames = [(f.filename.replace("\\", "/"), f.name, f.lineno) for f in tb]
+    # library frames are named by their qualified name (PropagateTargets.apply, not apply); myst_parser frames by
+    # their plain function name
+    frames = []
+    tbo = exc.__traceback__
+    while tbo is not None:
+        code = tbo.tb_frame.f_code
+        fn = code.co_filename.replace("\\", "/")
+        frames.append((fn, code.co_name if "/myst_parser/" in fn else getattr(code, "co_qualname", code.co_name), tbo.tb_lineno))
+        tbo = tbo.tb_next
     short = []
     for fn, name, ln in frames[-12:]:
         for m in LIB_MARKERS:
@@ -58,7 +65,7 @@ def signature_of(exc: BaseException) -> tuple[str, list[str]]:
                 # third-party directive / role code: identify the plugin's own frame as well;
                 # markdown-it / plugin code under Parser.parse: the innermost library frame
                 below = [f for f in frames[pos + 1:] if not f[0].endswith("/docutils/nodes.py")] or frames[pos + 1:]
-                runs = [f for f in below if f[1] in ("run", "__call__")] if name in PLUGIN_CALLERS else []
+                runs = [f for f in below if f[1].split(".")[-1] in ("run", "__call__")] if name in PLUGIN_CALLERS else []
                 ifn, iname, _ = runs[-1] if runs else (below[0] if name in PLUGIN_CALLERS else below[-1])
                 for m in LIB_MARKERS[1:]:
                     if m in ifn:
